@@ -9,20 +9,76 @@ from sa.paths import BREAK, CONTINUE, FALL, RAISE, RETURN, Enumerator, path_node
 NARROW = {'KeyError', 'IndexError', 'StopIteration', 'ValueError', 'decimal.InvalidOperation', 'ImportError',
           'NameError', 'AttributeError', 'ModuleNotFoundError'}
 
-# (iii) frozen benign handlers: (module, function, caught type) -> reason.  One named handler each.
-FROZEN = {
-    ('dataflows.base.schema_validator', 'schema_validator', 'CastError'):
-        'delegates to the on_error policy, which raises / drops / clears as configured (decided by C14)',
-    ('dataflows.helpers.iterable_loader', 'iterable_storage.describe', 'Exception'):
-        'schema inference fallback; the source error was stashed by handle_iterable and is re-raised after infer() '
-        '(checked separately as the stash obligation)',
-    ('dataflows.processors.set_type', 'set_type.wrap_transformer', 'Exception'):
-        'the try body is a bare inspect.signature() probe of the user transform; falls back to "no keyword arguments"',
-    ('dataflows.processors.parallelize', 'fini_mp', 'Exception'):
-        'cleanup of worker processes after all rows were delivered',
-    ('dataflows.cli', 'init', 'subprocess.CalledProcessError'):
-        'CLI wizard, not on a Flow run path',
-}
+# (iii) frozen benign handlers, each individually justified.  An entry names the module and the caught type and gives a predicate
+# over (try statement, handler) that describes the idiom; the enclosing function's name is deliberately not part of the key, so that
+# moving the handler into a helper of the same module does not matter, while any other handler of that module is still judged.
+def _delegates_to_policy(ctx, tr, h):
+    """The try body is a Field.cast_value() call and every path through the handler passes the caught exception to a callable that
+    is a parameter of the enclosing function (the on_error policy)."""
+    if h.name is None or not any(isinstance(c, ast.Call) and isinstance(c.func, ast.Attribute) and c.func.attr == 'cast_value'
+                                 for st in tr.body for c in ast.walk(st)):
+        return False
+    params = _param_names(ctx, tr)
+    paths = Enumerator(where='handler').paths(h.body)
+    if not paths:
+        return False
+    for p in paths:
+        ok = False
+        for n in path_nodes(p):
+            if isinstance(n, ast.Call) and isinstance(n.func, ast.Name) and n.func.id in params and \
+                    any(isinstance(a, ast.Name) and a.id == h.name for a in n.args):
+                ok = True
+        if not ok:
+            return False
+    return True
+
+
+_CLEANUP = {'join', 'kill', 'terminate', 'close'}
+
+
+def _process_cleanup_only(ctx, tr, h):
+    """Everything inside the try statement (body, handlers, finally) is join / kill / terminate / close on a handle, hasattr or
+    pass: cleanup of helpers after the data has been delivered, nothing that produces or moves rows."""
+    for n in ast.walk(tr):
+        if isinstance(n, (ast.Yield, ast.YieldFrom, ast.For, ast.While, ast.Return, ast.Assign, ast.AugAssign)):
+            return False
+        if isinstance(n, ast.Call):
+            f = n.func
+            if isinstance(f, ast.Attribute) and f.attr in _CLEANUP:
+                continue
+            if isinstance(f, ast.Name) and f.id == 'hasattr':
+                continue
+            return False
+    return True
+
+
+def _in_function(*names):
+    def pred(ctx, tr, h):
+        fi = ctx.repo.enclosing_func(h)
+        return fi is not None and fi.qualname.split(':', 1)[1] in names
+    return pred
+
+
+FROZEN = [
+    ('dataflows.base.schema_validator', 'CastError', _delegates_to_policy,
+     'delegates to the on_error policy, which raises / drops / clears as configured (decided by C14)'),
+    ('dataflows.helpers.iterable_loader', 'Exception', _in_function('iterable_storage.describe'),
+     'schema inference fallback; the source error was stashed by handle_iterable and is re-raised after infer() '
+     '(checked separately as the stash obligation)'),
+    ('dataflows.processors.set_type', 'Exception', _in_function('set_type.wrap_transformer'),
+     'the try body is a bare inspect.signature() probe of the user transform; falls back to "no keyword arguments"'),
+    ('dataflows.processors.parallelize', 'Exception', _process_cleanup_only,
+     'cleanup of worker processes after all rows were delivered'),
+    ('dataflows.cli', 'subprocess.CalledProcessError', _in_function('init'),
+     'CLI wizard, not on a Flow run path'),
+]
+
+
+def frozen_reason(ctx, m, tr, h, t):
+    for mod, typ, pred, reason in FROZEN:
+        if mod == m.name and typ == t and pred(ctx, tr, h):
+            return reason
+    return None
 
 
 def caught_types(h):
@@ -134,13 +190,22 @@ def r14_err_discipline(ctx, rule='R14', include=lambda m: True, floor=26):
         types = caught_types(h)
         w = where(ctx.repo, h)
         fqn = fi.qualname if fi else m.name + ':<module>'
-        construct = 'except %s: %s' % (', '.join(types), ' ; '.join(u(s).split('\n')[0] for s in h.body)[:160])
+        body_txt = ' ; '.join(u(s).split('\n')[0] for s in h.body)[:160]
+        if fi is not None:
+            sibs = sorted([x for x in ast.walk(fi.node) if isinstance(x, ast.ExceptHandler)
+                           and ctx.repo.enclosing_func(x) is fi], key=lambda x: (x.lineno, x.col_offset))
+        else:
+            sibs = [h]
+        # the finding is identified by function, caught type and position among the function's handlers - not by the text of
+        # the handler body, which a rename or another way of formatting a message would change
+        construct = 'except %s (handler %d of %d in this function, in source order)' % (
+            ', '.join(types), [i for i, x in enumerate(sibs) if x is h][0] + 1 if any(x is h for x in sibs) else 0, len(sibs))
         if handler_always_raises(ctx, h):
             run.ok(rule, w, fqn + ' ' + construct, '(i) always raises')
             continue
-        frozen = [t for t in types if (m.name, fname, t) in FROZEN]
-        if frozen and len(frozen) == len(types):
-            run.ok(rule, w, fqn + ' ' + construct, '(iii) frozen: ' + FROZEN[(m.name, fname, types[0])])
+        reasons = [frozen_reason(ctx, m, tr, h, t) for t in types]
+        if all(r is not None for r in reasons):
+            run.ok(rule, w, fqn + ' ' + construct, '(iii) frozen: ' + reasons[0])
             continue
         if all(t in NARROW for t in types):
             simple, why = body_is_simple(ctx, tr)
@@ -151,7 +216,8 @@ def r14_err_discipline(ctx, rule='R14', include=lambda m: True, floor=26):
         else:
             reason = 'broad exception type %s' % ', '.join(types)
         run.fail(rule, w, fqn, construct,
-                 'handler swallows the exception (%s): a failing step can end in a run that returns normally' % reason)
+                 'handler swallows the exception (%s): a failing step can end in a run that returns normally [handler body: %s]'
+                 % (reason, body_txt))
     run.floor(rule, n, floor, 'except handlers')
     return n
 
